@@ -104,7 +104,9 @@ fn plan(sc: &Scenario) -> Plan {
 }
 fn options(sc: &Scenario) -> cmd::new::Options {
     let j = sc.workers.to_string(); let mut a = vec!["new", "-n", "12", "--vanity-prefix", PREFIX, "-j", &j]; a.extend_from_slice(sc.extra);
-    cmd::new::Options::parse_from(a)
+    // parsed through a wrapper with `flatten`, which works whether Options derives clap's Parser or only Args
+    #[derive(clap::Parser)] struct Wrap { #[clap(flatten)] options: cmd::new::Options }
+    Wrap::parse_from(a).options
 }
 fn esc(s: &str) -> String { s.replace('\\', "\\\\").replace('"', "\\\"").replace('\n', "\\n") }
 
